@@ -246,6 +246,42 @@ def shared_rule_scenario(ctx, viol, stats):
             pr.destroy()
 
 
+def rule_changes_mid_call_scenario(ctx, viol, stats):
+    """"The script selected for a target is the first existing one" — existing when THAT target is started.  One command
+    names several targets; between two of them the set of scripts changes, because a rule is itself a generated file
+    (default.x.do is built by default.x.do.do) or because an earlier target's script retires one.  Each target must be
+    built by the first candidate existing at its own start; the same inside a script's `redo-ifchange a.x … b.x`."""
+    from proj import Project
+    cases = [("appears", ["a.x", "default.x.do", "b.x"], {"a.x": "default 1=a.x 2=a.x", "b.x": "default.x 1=b.x 2=b"}),
+             ("vanishes", ["a.x", "retire", "b.x"], {"a.x": "default.x 1=a.x 2=a", "b.x": "default 1=b.x 2=b.x"})]
+    for kind, order, want in cases:
+        for how in ("command line", "inside a script"):
+            pr = Project()
+            try:
+                pr.write("default.do", 'case $1 in *.x) echo "default 1=$1 2=$2";; *) echo "no rule for $1" >&2; exit 1;; esac\n')
+                if kind == "appears":
+                    pr.write("default.x.do.do", "echo 'echo \"default.x 1=$1 2=$2\"'\n")
+                else:
+                    pr.write("default.x.do", 'echo "default.x 1=$1 2=$2"\n')
+                    pr.write("retire.do", "rm -f default.x.do\n")
+                if how == "command line":
+                    rc, o, e = pr.run(["redo", "-j1"] + order)
+                else:
+                    pr.write("all.do", "redo-ifchange %s\n" % " ".join(order))
+                    rc, o, e = pr.run(["redo", "-j1", "all"])
+                stats["rule_changes_mid_call"] = stats.get("rule_changes_mid_call", 0) + 1
+                got = {t: (pr.read(t) or b"").decode().strip() for t in want}
+                if rc != 0 or got != want:
+                    p = write_replay("C13", "rule-%s-mid-call" % kind, dict(kind="impl-monitor", clause="the script selected for a target is the first existing one (when the target is started)",
+                                                                            how=how, order=order, rc=rc, want=want, got=got, stderr=e[-800:]))
+                    bad = [t for t in want if got[t] != want[t]] or ["?"]
+                    viol.append(Violation("C13", p, "a rule that %s between two targets of one call (%s: %s): exit %d, %s holds %r, the first script existing at its start gives %r"
+                                          % (kind, how, " ".join(order), rc, bad[0], got.get(bad[0]), want.get(bad[0]))))
+                    return
+            finally:
+                pr.destroy()
+
+
 def latin1_script_scenario(ctx, viol, stats):
     """The chosen script is run whatever bytes it contains: a .do file whose first line is not valid UTF-8 (a comment in
     Latin-1) is an ordinary sh script; one whose first line is `#!/…` with such bytes further on is still started through
@@ -312,6 +348,8 @@ def run(ctx):
             shared_rule_scenario(ctx, viol, stats)
         if not viol:
             latin1_script_scenario(ctx, viol, stats)
+        if not viol:
+            rule_changes_mid_call_scenario(ctx, viol, stats)
     ncand = sum(len(parse_cands(x) or []) for x in impl)
     return dict(evaluations=len(lines) + stats["placements"] * 2 + stats["reselect"] * 2,
                 distinct_nontrivial=len(set(l for l, r in zip(lines, impl) if r != "none" and r.count(",") >= 2)),
